@@ -3,6 +3,7 @@
 use crate::net::*;
 use crate::rng::Rng;
 use crate::{Args, Case};
+use std::future::Future;
 use std::time::Duration;
 use wtransport::quinn;
 
@@ -47,7 +48,18 @@ pub async fn exec(a: &Args) -> Args {
                         tokio::time::sleep(Duration::from_millis(delay + 7 * t)).await;
                     }
                     let mut recv = if kind == 0 {
-                        let r = if cancel == 1 {
+                        let r = if cancel == 3 {
+                            // the accept future is polled exactly once, then dropped, again and again
+                            loop {
+                                let mut fut = Box::pin(c.accept_uni());
+                                let polled = std::future::poll_fn(|cx| std::task::Poll::Ready(fut.as_mut().poll(cx))).await;
+                                drop(fut);
+                                match polled {
+                                    std::task::Poll::Ready(r) => break r,
+                                    std::task::Poll::Pending => tokio::time::sleep(Duration::from_millis(2)).await,
+                                }
+                            }
+                        } else if cancel == 1 {
                             loop {
                                 match tokio::time::timeout(Duration::from_millis(3), c.accept_uni()).await {
                                     Ok(r) => break r,
@@ -59,7 +71,17 @@ pub async fn exec(a: &Args) -> Args {
                         };
                         match r { Ok(s) => s, Err(_) => return }
                     } else {
-                        let r = if cancel == 1 {
+                        let r = if cancel == 3 {
+                            loop {
+                                let mut fut = Box::pin(c.accept_bi());
+                                let polled = std::future::poll_fn(|cx| std::task::Poll::Ready(fut.as_mut().poll(cx))).await;
+                                drop(fut);
+                                match polled {
+                                    std::task::Poll::Ready(r) => break r,
+                                    std::task::Poll::Pending => tokio::time::sleep(Duration::from_millis(2)).await,
+                                }
+                            }
+                        } else if cancel == 1 {
                             loop {
                                 match tokio::time::timeout(Duration::from_millis(3), c.accept_bi()).await {
                                     Ok(r) => break r,
@@ -303,6 +325,13 @@ pub fn oracle(a: &Args, out: &Args) -> Option<(&'static str, String)> {
                 }
             }
         })();
+        // a stream that stalls inside its preamble and stays open is no reason to end anything (C07)
+        if held_back && payload.is_none() {
+            let valid: [u64; 3] = if kind == 0 { [0x40, 0x54, 0x00] } else { [0x40, 0x41, 0x00] };
+            if b.len() < 3 && b[..] == valid[..b.len()] {
+                strict += 1;
+            }
+        }
         // a bidirectional stream carrying exactly one HEADERS frame (a session request, good or bad):
         // at most that stream is refused, the connection and the live session are not affected
         if kind == 1 && payload.is_none() {
@@ -637,6 +666,18 @@ fn generate_server_role(rng: &mut Rng, thorough: bool, which: &str) -> Vec<Case>
                 }
             }
         }
+        // a stall that lasts: six seconds with one byte of the preamble, then healthy streams
+        for kind in 0..2u64 {
+            let b = if kind == 0 { uni_wt(0, b"") } else { bi_wt(0, b"") };
+            let mut args = vec![vec![0, 1, 0, 1, 1]];
+            args.push(spec(kind, 1, 6000, 2, 0));
+            args.push(b2a(&b));
+            args.push(spec(0, 0, 0, 0, 0));
+            args.push(b2a(&uni_wt(0, b"uni-after-long-stall")));
+            args.push(spec(1, 0, 0, 0, 0));
+            args.push(b2a(&bi_wt(0, b"bi-after-long-stall")));
+            cs.push(Case::new(621, args, "long-stall-then-healthy"));
+        }
         // accepted but unread: k streams each carrying 1.2 MB (just below the stream window) that the
         // application never reads, then healthy streams of both kinds
         for (kind, k) in [(0u64, 5usize), (1, 5), (0, 2)] {
@@ -666,7 +707,7 @@ fn generate_server_role(rng: &mut Rng, thorough: bool, which: &str) -> Vec<Case>
         // C08: many streams, slow / multi-task / cancelling acceptors
         let counts: Vec<usize> = if thorough { vec![10, 40, 120] } else { vec![10, 40] };
         for nstreams in counts {
-            for (delay, tasks, cancel) in [(0u64, 1u64, 0u64), (15, 1, 0), (5, 3, 0), (2, 2, 1)] {
+            for (delay, tasks, cancel) in [(0u64, 1u64, 0u64), (15, 1, 0), (5, 3, 0), (2, 2, 1), (1, 1, 3), (0, 2, 3)] {
                 let mut args = vec![vec![delay, tasks, cancel, 0, 0]];
                 let (mut eu, mut eb) = (0, 0);
                 for i in 0..nstreams {
